@@ -30,6 +30,9 @@ def run(spec, args, kwargs):
         elif v is not True:
             out['reproduced'] = True
             out['detail'] = _js(dict(harness.DETAIL)) or dict(returned=repr(v))
+    except harness.Inconclusive as e:
+        out['reproduced'] = False
+        out['inconclusive'] = str(e)
     except Exception as e:  # the harness raised: that is a failure of the obligation too
         out['reproduced'] = spec['params'].get('_twin') != 'reach'
         out['failed_concretely'] = True
